@@ -344,6 +344,17 @@ def libm(s, st, name, a):
         other = 'cos' if name == 'sin' else 'sin'
         for (n_, args_, r_) in st.apps:
             if n_ == other and z3.eq(args_[0], x): use('sin(x)^2+cos(x)^2=1 (same argument)', r * r + r_ * r_ == 1)
+        if getattr(s, 'libm_inverse', False):
+            # opt-in: sin/cos of a value that IS the result of an earlier acos / atan2 application (inverse-function contracts)
+            for (n_, args_, r_) in st.apps:
+                if not z3.eq(r_, x): continue
+                if n_ == 'acos':
+                    t = args_[0]
+                    if name == 'cos': use('-1<=t<=1 -> cos(acos(t))=t', z3.Implies(z3.And(t >= -1, t <= 1), r == t))
+                    else: use('-1<=t<=1 -> sin(acos(t))>=0, sin(acos(t))^2=1-t^2', z3.Implies(z3.And(t >= -1, t <= 1), z3.And(r >= 0, r * r == 1 - t * t)))
+                elif n_ == 'atan2':
+                    yy, xx = args_[0], args_[1]; h = z3.Real(s.fresh("hyp"))
+                    use('a=atan2(y,x), h=sqrt(x^2+y^2): h*cos(a)=x, h*sin(a)=y', z3.And(h >= 0, h * h == xx * xx + yy * yy, z3.Implies(h > 0, (h * r == xx) if name == 'cos' else (h * r == yy))))
     elif name == 'acos':
         use('0<=acos(x)<=pi; acos(1)=0', z3.And(r >= 0, r <= pi, z3.Implies(x == 1, r == 0)))
     elif name == 'asin':
